@@ -841,7 +841,7 @@ type c32Fault struct {
 	// Kind: "none", "swap", "flip", "trunc", "append", "meta-digest", "zip-size", "raw-flip",
 	// "tar-dies", "cancel"
 	Kind  string `json:"kind"`
-	Entry int    `json:"entry"` // index (modulo) into the sorted entry names
+	Entry int    `json:"entry"` // index (modulo) into the sorted entry names, counted from the end
 	Pos   int    `json:"pos"`   // permille position / byte count
 	Val   int    `json:"val"`
 	K     int    `json:"k"` // which extraction (1-based) is hit; cancel: 0 = before the restore starts
@@ -1077,9 +1077,9 @@ func c32RunRestore(c c32RestoreCase) (verifkit.Outcome, error) {
 
 	// 3. the fault in the snapshot file
 	f := c.Fault
-	if len(entryNames) > 0 {
-		f.Entry = ((f.Entry % len(entryNames)) + len(entryNames)) % len(entryNames)
-	}
+	// Entry counts from the end of the sorted names: the system archive is
+	// listed first in the metadata and therefore mostly restored first
+	f.Entry = len(entryNames) - 1 - ((f.Entry%len(entryNames))+len(entryNames))%len(entryNames)
 	faultEntry := entryNames[f.Entry]
 	archiveFault := false
 	switch f.Kind {
@@ -1290,9 +1290,6 @@ func c32RunRestore(c c32RestoreCase) (verifkit.Outcome, error) {
 	attempts := 1
 	if f.Kind != "none" || obstructed {
 		attempts = 2
-		if nProcessed >= 2 && f.Kind != "tar-dies" && f.Kind != "cancel" {
-			attempts = 3
-		}
 	}
 	maxCompleted := 0
 	var lastErr error
@@ -1452,7 +1449,7 @@ func c32GenDir(t *rapid.T, label string, kinds []int) c32Dir {
 
 func c32GenRestore(t *rapid.T) c32RestoreCase {
 	c := c32RestoreCase{}
-	c.Users = rapid.SampledFrom([]int{0, 1, 1, 2, 2, 2, 2}).Draw(t, "users")
+	c.Users = rapid.SampledFrom([]int{0, 1, 1, 1, 2, 2, 2, 2}).Draw(t, "users")
 	c.Instance = rapid.IntRange(0, 4).Draw(t, "instance") == 0
 	c.Hidden = rapid.IntRange(0, 4).Draw(t, "hidden") == 0
 	for i := 0; i <= c.Users; i++ {
@@ -1463,7 +1460,7 @@ func c32GenRestore(t *rapid.T) c32RestoreCase {
 		c.Saved = append(c.Saved, s)
 		e := c32ExistingPlace{}
 		if i > 0 {
-			e.Home = rapid.SampledFrom([]int{0, 0, 0, 0, 0, 0, 0, 0, 1, 2}).Draw(t, "home")
+			e.Home = rapid.SampledFrom([]int{0, 0, 0, 0, 0, 0, 0, 0, 0, 0, 0, 0, 0, 1, 2}).Draw(t, "home")
 		}
 		e.Parent = rapid.SampledFrom([]int{0, 0, 0, 0, 0, 0, 0, 0, 0, 0, 0, 0, 0, 0, 0, 0, 1, 1, 2, 3}).Draw(t, "parent")
 		for range c32Names {
@@ -1478,7 +1475,7 @@ func c32GenRestore(t *rapid.T) c32RestoreCase {
 	c.After = rapid.SampledFrom([]int{0, 0, 1}).Draw(t, "after")
 	f := c32Fault{Kind: rapid.SampledFrom([]string{"none", "none", "none", "swap", "swap", "flip", "flip", "trunc", "append", "meta-digest", "zip-size",
 		"raw-flip", "tar-dies", "tar-dies", "tar-dies", "cancel", "cancel"}).Draw(t, "fault")}
-	f.Entry = rapid.IntRange(0, 5).Draw(t, "entry")
+	f.Entry = rapid.SampledFrom([]int{0, 0, 0, 1, 1, 2}).Draw(t, "entry")
 	f.Pos = rapid.IntRange(0, 999).Draw(t, "pos")
 	f.Val = rapid.SampledFrom([]int{1, 0x80, 0xff, 0x20, 7, 300}).Draw(t, "val")
 	switch f.Kind {
@@ -1491,7 +1488,7 @@ func c32GenRestore(t *rapid.T) c32RestoreCase {
 		f.Pos = rapid.SampledFrom([]int{0, 1, 10, 100, 300, 512, 1024, 4096, 20000, 1 << 30}).Draw(t, "bytes")
 		f.Kill = rapid.Bool().Draw(t, "kill")
 	case "cancel":
-		f.K = rapid.SampledFrom([]int{0, 1, 2, 2, 2, 2, 3}).Draw(t, "k")
+		f.K = rapid.SampledFrom([]int{0, 1, 2, 2, 2, 2, 3, 3}).Draw(t, "k")
 	}
 	c.Fault = f
 	return c
